@@ -697,6 +697,15 @@ func c01Entries(c *vf.Ctx) {
 				return
 			}
 			defer s.Close()
+			// in a third of the cases the subscriber has synced other entries before, with a depth limit given for
+			// that call alone: it applies to that call alone
+			if i%3 == 1 {
+				if och, err := NewEntryChain(r, pub, 3, linkProto(multihash.SHA2_256, -1)); err == nil {
+					_ = s.SyncEntries(context.Background(), front.AddrInfo(), och.Head(), dagsync.ScopedDepthLimit([]int64{1, 2, -1}[r.Intn(3)]))
+					hl.reset()
+					c.Inc("entries_syncs_preceded_by_a_sync_with_its_own_depth_limit")
+				}
+			}
 			front.ResetLog()
 			var so []dagsync.SyncOption
 			if k.Scoped != 0 {
